@@ -21,16 +21,24 @@ Definition oldest (sup : list Z) : Z := hd 0 sup.
 Definition spec_advertised (sup : list Z) (p : Z) : Z :=
   if memZ p sup then p else newest sup.
 
-(* What the code does. handleStatusRequest passes pc.Protocol, i.e. the protocol of the decoder's
-   registry: PacketRegistry.ProtocolRegistry p falls back to MinimumVersion when p has no registry.
-   newInitialPing then tests Protocol.Supported, which is "not Unknown (-1)". *)
+(* What the code does (since fix c892351): handleStatusRequest passes conn.Protocol (), the number
+   from the client's handshake, and newInitialPing looks it up in version.ProtocolToVersion: absent,
+   Unknown (-1) or Legacy (-2) -> MaximumVersion. The members that are neither Unknown nor Legacy are
+   exactly version.SupportedVersions. *)
+Definition impl_advertised (sup : list Z) (p : Z) : Z :=
+  if memZ p sup then p else newest sup.
+
+(* PRE-FIX code (before c892351), kept as a labelled historical fact: handleStatusRequest passed
+   pc.Protocol, i.e. the protocol of the decoder's registry, and PacketRegistry.ProtocolRegistry p
+   falls back to MinimumVersion when p has no registry; newInitialPing then only tested
+   Protocol.Supported, which is "not Unknown (-1)". *)
 Definition registry_protocol (sup : list Z) (p : Z) : Z :=
   if memZ p sup then p else oldest sup.
-Definition impl_advertised (sup : list Z) (p : Z) : Z :=
+Definition prefix_impl_advertised (sup : list Z) (p : Z) : Z :=
   let rp := registry_protocol sup p in
   if rp =? -1 then newest sup else rp.
 
-(* trigger of finding C43-1 *)
+(* trigger of the (fixed) finding C43-1 *)
 Definition trigger_unsupported (sup : list Z) (p : Z) : bool := negb (memZ p sup).
 
 (* ---- the session ------------------------------------------------------------------------------ *)
@@ -38,9 +46,9 @@ Definition trigger_unsupported (sup : list Z) (p : Z) : bool := negb (memZ p sup
 Inductive op :=
 | Req                     (* StatusRequest, id 0 (trailing bytes are tolerated by the decoder)    *)
 | Ping (payload : bytes)  (* packet id 1; payload = the whole body. Well-formed: 8 bytes or more
-                             (trailing bytes are tolerated). StatusPing.Decode uses util.ReadInt64,
-                             which accepts a short read: bodies of 1..7 bytes are handled as pings
-                             too; an empty body is a decode error *)
+                             (trailing bytes are tolerated). StatusPing.Decode uses util.ReadInt64
+                             = io.ReadFull of 8 bytes (since fix 2257945): a body shorter than 8
+                             bytes is a decode error, the read loop closes the connection *)
 | Bad                     (* unknown packet id                                                    *)
 | Empty.                  (* zero-length frame: skipped by the decoder, at most 11 in a row      *)
 
@@ -64,10 +72,8 @@ Definition step (adv online : Z) (s : st) (o : op) : st * list out :=
   | Req =>
       if got_req s then (mkSt true true 0, [OClose])
       else (mkSt true false 0, [OResp adv online])
-  | Ping p => match p with
-              | [] => (mkSt (got_req s) true 0, [OClose])
-              | _ => (mkSt (got_req s) true 0, [OEcho p; OClose])
-              end
+  | Ping p => if Nat.ltb (length p) 8 then (mkSt (got_req s) true 0, [OClose])
+              else (mkSt (got_req s) true 0, [OEcho p; OClose])
   | Bad => (mkSt (got_req s) true 0, [OClose])
   end.
 
